@@ -94,6 +94,12 @@ func (sc *sliceCtx) visit(v ssa.Value, stack []*ssa.Call) {
 		}
 	case *ssa.Alloc:
 		sc.visitAddr(x, stack)
+	case *ssa.FreeVar:
+		// a captured variable: what the enclosing function bound it to
+		if bnd := freeVarBinding(x); bnd != nil {
+			sc.visit(bnd, nil)
+		}
+		return
 	}
 	if ins, ok := v.(ssa.Instruction); ok {
 		for _, op := range ins.Operands(nil) {
